@@ -59,6 +59,7 @@ type c14Scenario struct {
 	Name, Typ, Chain   string
 	FaultNode, FaultOp string
 	CsvAfterCancel     bool // crash the taker, deliver its cancel, mine past the csv
+	InvalidCoop        bool // the taker sends a coop_close that fails validation while the maker waits for the payment
 	Mine               int
 	Advance            time.Duration
 }
@@ -83,6 +84,8 @@ func c14Scenarios() []c14Scenario {
 		{Name: "out-btc-csv", Typ: "out", Chain: "btc", CsvAfterCancel: true, Mine: 1010},
 		{Name: "in-btc-csv", Typ: "in", Chain: "btc", CsvAfterCancel: true, Mine: 1010},
 		{Name: "out-btc-agreementlost-timeout", Typ: "out", Chain: "btc", FaultNode: "bob", FaultOp: "msg.send:42075", Advance: 48 * time.Hour},
+		{Name: "in-btc-invalidcoop", Typ: "in", Chain: "btc", InvalidCoop: true, Mine: 2},
+		{Name: "out-lbtc-invalidcoop", Typ: "out", Chain: "lbtc", InvalidCoop: true, Mine: 2},
 	}
 }
 
@@ -202,6 +205,17 @@ func c14RunScenario(seed int64, s c14Scenario, rng *mrand.Rand) (writes []c14Wri
 	chain := w.BTC
 	if s.Chain == "lbtc" {
 		chain = w.LBTC
+	}
+	if s.InvalidCoop {
+		// the taker's identity sends a coop_close whose key does not parse: the maker's record goes through the
+		// invalid-message path
+		pl := []byte(fmt.Sprintf(`{"swap_id":%q,"message":"x","privkey":"zz"}`, lastID))
+		if s.Typ == "out" {
+			w.InjectMsg(a.ID, "bob", 0xa461, pl)
+		} else {
+			w.InjectMsg(b.ID, "alice", 0xa461, pl)
+		}
+		w.Run()
 	}
 	if s.CsvAfterCancel {
 		pl := []byte(fmt.Sprintf(`{"swap_id":%q,"message":"taker gives up"}`, lastID))
@@ -891,7 +905,7 @@ func (g *c14Gen) edgeCases() []*swap.SwapStateMachine {
 func TestC14(t *testing.T) {
 	r := newRun(t, "C14", "exploration")
 	defer r.Finish()
-	r.Rule = "records written through the real bbolt store, file closed and reopened, read by a fresh store (GetData and ListAll) and compared field by field (reflection over SwapStateMachine.{SwapId,Type,Role,Previous,Current} and every exported field of SwapData and the seven message structs; LastErr through LastErrString) with the in-memory value at write time; then the reloaded value is stored again and the bytes compared. Sources: (i) every store write of real two-node world runs (18 scenarios: happy/cancel/coop/csv/timeout paths on both chains, all four roles) with an in-memory snapshot taken inside the write crossing; (ii) reflection-generated machines (every exported field × value class). distinct = real/(type/role/state) ∪ gen/(field=value class)"
+	r.Rule = "records written through the real bbolt store, file closed and reopened, read by a fresh store (GetData and ListAll) and compared field by field (reflection over SwapStateMachine.{SwapId,Type,Role,Previous,Current} and every exported field of SwapData and the seven message structs; LastErr through LastErrString) with the in-memory value at write time; then the reloaded value is stored again and the bytes compared. Sources: (i) every store write of real two-node world runs (20 scenarios: happy/cancel/coop/csv/timeout/invalid-message paths on both chains, all four roles) with an in-memory snapshot taken inside the write crossing; (ii) reflection-generated machines (every exported field × value class). distinct = real/(type/role/state) ∪ gen/(field=value class)"
 	r.Assumptions = []string{
 		"bbolt returns the bytes that were put (the committed bytes of a world write are planted raw into a fresh file to obtain a reopened-file read of that exact write)",
 		"in the deterministic world no other goroutine mutates a machine while its store write crossing is executing, so the snapshot taken there is the value that was marshalled",
